@@ -25,7 +25,7 @@ RULE = ('one case = one history: a construction (constructor / from_sequence / C
         'root, non-root SR or non-SR sequence from 0..4 items followed by 1..15 operations drawn from append, extend, '
         '(argument a list or a ContentSequence with any flags), insert (any position, also positions that are not ints), setitem (index / slice incl. extended), delitem (index / slice), +=, pop, remove '
         '(indices and positions in every accepted spelling: int, bool, numpy integer types, objects with __index__), '
-        'reverse, clear, continue-on-find-result, continue-on-get_nodes-result; in 35 % of the histories a POOL of up to three sequences is alive (clone = ContentSequence(member, own flags), attach = item.ContentSequence = member), operations go to any member and EVERY member is observed after every step; items share a 4-name alphabet (equal '
+        'reverse, clear, continue-on-find-result, continue-on-get_nodes-result, and (5 %) every entry path with an argument that is NOT a content item (a plain Dataset holding all elements of one, an empty Dataset, str, None, int; alone or after conforming items); iterable arguments as list / tuple / generator / iterator / deque; in 35 % of the histories a POOL of up to three sequences is alive (clone = ContentSequence(member, own flags), attach = item.ContentSequence = member, copy = copy.copy(member), deepcopy = copy.deepcopy(member), pickle = pickle round trip), operations go to any member and EVERY member (list, every find, index / in, get_nodes, flags, object identities) is observed after every step; items share a 4-name alphabet (equal '
         'names may differ in code meaning; two further names are an SRT / SCT alias pair, == but with different hashes; two more are the code of name 0 with scheme versions 1.0 / 2.0 - different names with the same value and designator; every fifth item gets its name as a plain pydicom Code), carry or lack a relationship type, and have a unique ObservationUID unless '
         'deliberately duplicated (same object or equal copy); after every step list, find(n) for all names (each spelled as CodedConcept and as pydicom Code), index/in '
         'for all items made so far and get_nodes are observed.  Non-trivial = history with >= 2 accepted mutations and '
@@ -41,6 +41,8 @@ MODELLED_NOT_VERIFIED = ['pydicom.sequence.Sequence / ConstrainedList (list muta
                          'collections.abc.MutableSequence mixins pop/remove/reverse/clear (modelled as their source reads)',
                          'pydicom Dataset.__eq__']
 
+POOL_OPS = ('clone', 'attach', 'copy', 'deepcopy', 'pickle')
+PARTIAL_OPS = ('extend', 'iadd', 'extend_self', 'extend_other')      # keep what they appended before the offending item
 NAMES = 4                      # alphabet n0..n3 (+ one name never used: index NAMES)
 ALIAS = (5, 6)                 # two names that are == (SRT T-B7000 / SCT 111002) but hash differently
 VERSIONED = (7, 8)              # the code of name 0 with scheme version '1.0' / '2.0': different names (and keys)
@@ -84,6 +86,10 @@ def _gen_item(r, kind, st, p_bad=0.15, init=False):
 
 
 BAD_POS = {'float': 1.0, 'none': None, 'str': 'first'}
+# arguments that are not content items: a plain Dataset holding everything a content item holds (name, relationship type,
+# value type, value), an empty Dataset, and things that are not data sets at all
+OTHERS = ['lookalike', 'lookalike', 'lookalike-norel', 'empty-dataset', 'str', 'none', 'int']
+FORMS = ['list', 'list', 'tuple', 'generator', 'iterator', 'deque']
 SPELLINGS = ['int', 'int', 'int', 'np.int64', 'np.intp', 'np.int8', 'np.uint16', 'bool', 'index-object']
 
 
@@ -166,8 +172,24 @@ def gen_case(ctx, idx):
     pool_case = r.random() < 0.35     # several sequences alive at once (one built from another)
     for _ in range(nops):
         x = r.random()
-        if pool_case and r.random() < 0.22:
-            ops.append({'op': r.choice(['clone', 'clone', 'attach']), 'seq': r.randrange(3)})
+        if pool_case and r.random() < 0.26:
+            ops.append({'op': r.choice(['clone', 'clone', 'attach', 'copy', 'deepcopy', 'pickle']), 'seq': r.randrange(3)})
+            continue
+        if r.random() < 0.05:
+            # an argument that is NOT a content item (see OTHERS) on one of the entry paths
+            o = r.choice(['append_other', 'extend_other', 'extend_other', 'insert_other', 'setitem_other', 'setslice_other'])
+            op = {'op': o, 'what': r.choice(OTHERS)}
+            if o == 'extend_other':
+                op.update(how=r.choice(['extend', 'iadd']), xs=[_gen_item(r, kind, st, 0.05) for _ in range(r.choice([0, 0, 1, 2]))],
+                          post=r.choice([0, 1]))
+                est += len(op['xs'])
+            elif o == 'insert_other':
+                op['pos'] = r.randint(-est - 2, est + 2)
+            elif o == 'setitem_other':
+                op['i'] = r.randint(-est - 1, est)
+            elif o == 'setslice_other':
+                op.update(s=_gen_slice(r, est), xs=[_gen_item(r, kind, st, 0.05) for _ in range(r.choice([0, 1, 2]))])
+            ops.append(op)
             continue
         if x < 0.24:
             ops.append({'op': 'append', 'x': _gen_item(r, kind, st)})
@@ -215,6 +237,8 @@ def gen_case(ctx, idx):
     for op in ops:
         if op['op'] in ('insert', 'setitem', 'delitem', 'pop'):
             op['spell'] = r.choice(SPELLINGS)          # every accepted spelling of an index: int, bool, numpy ints, __index__
+        if op['op'] in ('extend', 'iadd', 'setslice') and not op.get('as_seq'):
+            op['form'] = r.choice(FORMS)               # the iterable argument as list / tuple / generator / iterator / deque
     if pool_case:
         for op in ops:
             op.setdefault('seq', r.randrange(3))       # taken modulo the pool size when the history runs
@@ -350,6 +374,7 @@ def _observe(seq, objs, probes):
             obs['in'].append(bool(x in seq))
         except Exception as e:  # noqa: BLE001
             obs['in'].append('err:' + _kind_of(e))
+    obs['flags'] = [bool(seq.is_root), bool(seq.is_sr)]
     try:
         nodes = list(seq.get_nodes())
         obs['nodes'] = objs.tags(nodes)
@@ -440,8 +465,14 @@ def _oracle(ctx, case, step, seq, kind, objs, probes, obs):
     elif sorted(obs['nodes']) != want:
         ctx.fail(where, {'what': 'get_nodes differs from the items with content in the list', 'got': obs['nodes_uids'],
                          'want': want}, site='get_nodes')
-    # relationship rule over the current list (raw attribute presence, not the library's accessor)
+    # relationship rule over the current list (raw attribute presence, not the library's accessor); and what is in the
+    # list is a content item (every entry path tests the type)
+    from highdicom.sr import ContentItem as _CI
     for i in lst:
+        if not isinstance(i, _CI):
+            ctx.fail(where, {'what': 'an element of the sequence is not a content item', 'type': type(i).__name__},
+                     site='non-item-entered')
+            break
         has = 'RelationshipType' in i
         if (kind == 'root' and has) or (kind == 'sr' and not has):
             ctx.fail(where, {'what': 'relationship-type rule broken by an item in the sequence', 'item': _uid_of(i),
@@ -474,9 +505,41 @@ def _expected_accept(kind, op, n, objs):
     return None
 
 
+def _other(what, kind):
+    """Something that is not a highdicom ContentItem."""
+    from pydicom.dataset import Dataset
+    if what.startswith('lookalike'):
+        from highdicom.sr import TextContentItem
+        rel = None if (kind == 'root' or what.endswith('norel')) else 'CONTAINS'      # obeys the rule unless 'norel'
+        real = TextContentItem(_name(1), 'not a content item', relationship_type=rel)
+        real.ObservationUID = '1.2.826.0.1.3680043.8.498.99999'
+        plain = Dataset()
+        for el in real:                      # the same data elements in a plain Dataset
+            plain.add(el)
+        assert type(plain) is Dataset
+        return plain
+    return {'empty-dataset': Dataset(), 'str': 'item', 'none': None, 'int': 7}[what]
+
+
+def _form(items, form):
+    """The same items as another kind of iterable."""
+    if form == 'tuple':
+        return tuple(items)
+    if form == 'generator':
+        return (i for i in items)
+    if form == 'iterator':
+        return iter(items)
+    if form == 'deque':
+        import collections
+        return collections.deque(items)
+    return items
+
+
 def _bulk_arg(op, objs):
     from highdicom.sr import ContentSequence
     items = [objs.get(x) for x in op['xs']]
+    if op.get('form') and not op.get('as_seq'):
+        return _form(items, op['form'])
     if op.get('as_seq'):
         is_root, is_sr = KINDS[op['as_seq']]
         try:
@@ -486,10 +549,30 @@ def _bulk_arg(op, objs):
     return items
 
 
-def _apply(seq, op, objs):
+def _apply(seq, op, objs, kind='sr'):
     """Run one operation on the real sequence.  Returns (new seq, error kind or None)."""
     o = op['op']
     try:
+        if o == 'append_other':
+            seq.append(_other(op['what'], kind))
+            return seq, None
+        if o == 'extend_other':
+            arg = [objs.get(x) for x in op['xs']] + [_other(op['what'], kind)] + \
+                ([objs.get(x) for x in op['xs'][:1]] if op.get('post') else [])
+            if op.get('how') == 'iadd':
+                seq += arg
+            else:
+                seq.extend(arg)
+            return seq, None
+        if o == 'insert_other':
+            seq.insert(op['pos'], _other(op['what'], kind))
+            return seq, None
+        if o == 'setitem_other':
+            seq[op['i']] = _other(op['what'], kind)
+            return seq, None
+        if o == 'setslice_other':
+            seq[slice(*op['s'])] = [objs.get(x) for x in op['xs']] + [_other(op['what'], kind)]
+            return seq, None
         if o == 'append':
             seq.append(objs.get(op['x']))
         elif o == 'extend':
@@ -517,7 +600,7 @@ def _apply(seq, op, objs):
         elif o == 'setitem':
             seq[_spell(op['i'], op.get('spell'))] = objs.get(op['x'])
         elif o == 'setslice':
-            seq[slice(*op['s'])] = [objs.get(x) for x in op['xs']]
+            seq[slice(*op['s'])] = _form([objs.get(x) for x in op['xs']], op.get('form'))
         elif o == 'delitem':
             del seq[_spell(op['i'], op.get('spell'))]
         elif o == 'delslice':
@@ -551,7 +634,9 @@ def _construct(case, objs):
             plain = [Dataset.from_json(i.to_json()) for i in items]
             seq = ContentSequence.from_sequence(plain, is_root=is_root, is_sr=is_sr)
             for i, d in zip(seq, case['init']):       # the parsed objects take the places (and tags) of the given ones
-                objs.by_tag.pop(_tag(d), None)
+                gone = objs.by_tag.pop(_tag(d), None)
+                if gone is not None:
+                    objs.tag_of.pop(id(gone), None)
                 objs.by_uid[_uid_of(i)] = i
                 objs.register(_tag(d), i)
         elif case['via'] == 'setattr':
@@ -601,6 +686,7 @@ def run_history(ctx, case, oracle=True):
         trace.append({'err': err, 'obs': None})
         return trace, None
     pool, kinds = [seq], ['sr' if case['via'] == 'setattr' else kind]
+    n_deep, keep = 0, []          # deep copies made so far; they are kept alive (object ids serve as keys)
     obs = [_observe(seq, objs, probes)]
     trace.append({'err': None, 'obs': obs, 'probes': list(probes)})
     if oracle:
@@ -609,21 +695,35 @@ def run_history(ctx, case, oracle=True):
         note_items([op['x']] if 'x' in op else op.get('xs', []))
         t = op.get('seq', 0) % len(pool)
         n_before = len(pool[t])
-        if op['op'] in ('clone', 'attach'):
+        before = trace[-1]['obs'][t] if trace[-1]['obs'] else None
+        if op['op'] in POOL_OPS:
             err = None
             try:
                 if op['op'] == 'clone':
                     is_root, is_sr = KINDS[kinds[t]]
                     new, nk = ContentSequence(pool[t], is_root=is_root, is_sr=is_sr), kinds[t]
-                else:
+                elif op['op'] == 'attach':
                     parent = ContainerContentItem(_name(0), relationship_type='CONTAINS')
                     parent.ContentSequence = pool[t]
                     new, nk = parent.ContentSequence, 'sr'
+                elif op['op'] == 'copy':
+                    new, nk = _copy.copy(pool[t]), kinds[t]
+                else:
+                    import pickle
+                    new = _copy.deepcopy(pool[t]) if op['op'] == 'deepcopy' else pickle.loads(pickle.dumps(pool[t]))
+                    nk = kinds[t]
+                    n_deep += 1
+                    # the copies are new objects: the copy of the object tagged T is tagged T + 10^6 * 2^(number of this deep copy)
+                    if len(new) == len(pool[t]):
+                        for a, b in zip(pool[t], new):
+                            if id(a) in objs.tag_of:       # (a stale id of a dead object may equal id(b): always re-register)
+                                objs.register(objs.tag_of[id(a)] + 1000000 * 2 ** n_deep, b)
+                    keep.append(new)
                 _pool_put(pool, kinds, new, nk)
             except Exception as e:  # noqa: BLE001
                 err = _kind_of(e)
         else:
-            pool[t], err = _apply(pool[t], op, objs)
+            pool[t], err = _apply(pool[t], op, objs, kinds[t])
             if err == 'runtime' and op['op'] == 'extend_self':
                 if oracle:
                     ctx.fail({'case': case, 'step': k}, 'seq.extend(seq) / seq += seq did not terminate', site='extend-self')
@@ -632,7 +732,24 @@ def run_history(ctx, case, oracle=True):
         obs = [_observe(m, objs, probes) for m in pool]
         trace.append({'err': err, 'obs': obs, 'probes': list(probes)})
         if oracle:
-            if op['op'] not in ('clone', 'attach'):
+            if op['op'] in ('copy', 'deepcopy', 'pickle'):
+                if err is not None:
+                    ctx.fail({'case': case, 'step': k}, f'{op["op"]} of a sequence failed ({err})', site=op['op'])
+                elif obs[len(pool) - 1]['uids'] != before['uids']:
+                    ctx.fail({'case': case, 'step': k}, {'what': f'{op["op"]} of a sequence does not hold equal items in the same order',
+                                                         'copy': obs[len(pool) - 1]['uids'], 'original': before['uids']}, site=op['op'])
+            elif op['op'] not in ('clone', 'attach'):
+                if err is not None and op['op'] not in PARTIAL_OPS and before is not None and \
+                        (obs[t]['list'], obs[t]['find']) != (before['list'], before['find']):
+                    # enforcement means the refused item does not enter and nothing else happens: a refused operation
+                    # (other than extend / +=, which keep what they appended before the offender) leaves list and index as they were
+                    ctx.fail({'case': case, 'step': k}, {'what': f'{op["op"]} was refused ({err}) but changed the sequence',
+                                                         'list_before': before['list'], 'list_after': obs[t]['list'],
+                                                         'find_before': before['find'], 'find_after': obs[t]['find']},
+                             site='refused-but-changed')
+                if op['op'].endswith('_other') and err is None:
+                    ctx.fail({'case': case, 'step': k}, {'what': f'{op["op"]} accepted an argument that is not a content item',
+                                                         'argument': op['what']}, site='non-item-entered')
                 exp = _expected_accept(kinds[t], op, n_before, objs)
                 if exp is True and err is not None:
                     ctx.fail({'case': case, 'step': k}, {'what': f'{op["op"]} refused items that obey the relationship rule '
@@ -691,7 +808,7 @@ def _compare(ctx, case, trace, ans):
         if len(a['obs']) != len(b['obs']):
             ctx.disagree('L0', {'case': case, 'step': k - 1}, len(a['obs']), len(b['obs']), 'number of sequences in the pool')
             return
-        for m, key in [(m, key) for m in range(len(a['obs'])) for key in ('list', 'find', 'find_code', 'index', 'in', 'nodes')]:
+        for m, key in [(m, key) for m in range(len(a['obs'])) for key in ('list', 'find', 'find_code', 'index', 'in', 'nodes', 'flags')]:
             # the model has one `find` per name (the dict key); the look-up spelled as pydicom Code must give the same
             va, vb = a['obs'][m][key], b['obs'][m]['find' if key == 'find_code' else key]
             va = json.loads(json.dumps(va))
@@ -777,7 +894,7 @@ def run(ctx):
                 d['m'] = 0
         trace, _ = run_history(ctx, case)
         accepted = sum(1 for t, op in zip(trace[1:], case['ops']) if t['err'] is None
-                       and op['op'] not in ('into_find', 'into_nodes', 'clone', 'attach'))
+                       and op['op'] not in ('into_find', 'into_nodes') + POOL_OPS)
         shared = False
         for t in trace:
             if t['obs'] and any(isinstance(f, list) and len(f) >= 2 for o in t['obs'] for f in o['find']):
@@ -789,6 +906,13 @@ def run(ctx):
                  via=case['via'], length=len(case['ops']), construct=('ok' if trace[0]['err'] is None else trace[0]['err']))
         for t, op in zip(trace[1:], case['ops']):
             ctx.hist('ops', op['op'] + ('[seq:' + op['as_seq'] + ']' if op.get('as_seq') else '') + ('' if t['err'] is None else '/refused:' + t['err']))
+        for op in case['ops']:
+            if op.get('form'):
+                ctx.hist('iterable_argument_form', op['form'])
+            if op.get('what'):
+                ctx.hist('non_item_argument', op['what'])
+            if op.get('spell'):
+                ctx.hist('index_spelling', op['spell'])
         if trace[-1]['obs']:
             ctx.hist('final_len', min(len(trace[-1]['obs'][0]['list']), 12))
             ctx.hist('pool_size', len(trace[-1]['obs']))
